@@ -94,6 +94,10 @@ def main():
             res["apply_out"] = out[-800:]
             print(json.dumps(res, indent=1))
             return 2
+        if re.search(r"^\+\+\+ b/data/", open(os.path.join(seed, "patch.diff")).read(), re.M):
+            # the generated tables do not list every data file as a build dependency: a data change needs a build from scratch
+            shutil.rmtree(bdir, ignore_errors=True)
+            res["rebuilt_from_scratch"] = True
         if not a.skip_confirm:
             ok1, log = suite(copy, bdir)
             res["patched_builds"] = ok1 is not None
